@@ -315,10 +315,20 @@ def main():
             checker_cmd += f" && lake env leanchecker {thm['module']}"
         # 3. cargo build
         engines = sorted({s["engine"] for s in spec.get("streams", [])})
+        streams_runnable = True
         if engines:
             okc, outc = cargo_build(engines)
             if not okc:
-                raise Infra("harness does not build against /repo's working tree:\n" + outc[-3000:])
+                # rustc diagnostics (`error[E0308]: …`, `error: … --> src/…`) mean ord's working tree or
+                # its guarded hooks no longer fit the harness: the correspondence cannot be established
+                # for this tree, which is a broken obligation (reported, no stream can run).  Anything
+                # else (lock file, disk, manifest) is infrastructure.
+                if re.search(r"^error(\[E\d+\])?: .*\n\s+--> ", outc, re.M) or "could not compile `ord`" in outc or "could not compile `ordinals`" in outc:
+                    diag = [l for l in outc.splitlines() if l.startswith("error") or l.lstrip().startswith("--> ")][:8]
+                    obligations_broken.append("correspondence: harness/hooks no longer compile against the working tree: " + " ; ".join(diag))
+                    streams_runnable = False
+                else:
+                    raise Infra("harness does not build against /repo's working tree:\n" + outc[-3000:])
         # 4. streams
         known = load_known(prop)
         known_seen = {}
@@ -327,7 +337,7 @@ def main():
         oracle_fail, model_diff, samples, dist = [], [], [], {}
         unmaskable = set()
         jobs = []
-        for si, s in enumerate(spec.get("streams", [])):
+        for si, s in enumerate(spec.get("streams", []) if streams_runnable else []):
             cfg = s.get(tier) or s.get("quick") or {}
             if replay:
                 jobs.append((s, cfg, seed, os.path.join(scratch, f"replay{si}"), replay))
